@@ -59,7 +59,7 @@ def bounds(tier):
     return b
 
 
-def shards(tier):
+def _shards_main(tier):
     out = []
     for nm, n in V.parts(tier):
         st = STEP[tier][nm]
@@ -248,7 +248,7 @@ def check_graph(acc, g):
         acc.outcome(f"ok:graph:{shape}:{root}")
 
 
-def run_shard(shard, tier):
+def _run_shard_main(shard, tier):
     acc = Acc()
     P.reset_state()
     if shard[0] == "tree":
@@ -297,3 +297,27 @@ def snippet(d):
             "from mc.ref.pr_values import build_graph, build_twin\n"
             f"g = {c['graph']!r}\n"
             "print(hy.repr(build_graph(g)))\nprint(repr(hy.repr(build_twin(g))))\n")
+
+
+# ---------------------------------------------------------------- every short string over the characters that need escaping
+STR_ALPHA = ["a", "'", '"', "\\", "\n", "\x00", "\xe9", "{", "#"]
+STR_MAXLEN = {"quick": 3, "thorough": 5}
+
+
+def shards(tier):
+    return list(_shards_main(tier)) + [["strings", k] for k in range(STR_MAXLEN[tier] + 1)]
+
+
+def run_shard(shard, tier):
+    if shard[0] == "strings":
+        import itertools
+        acc = Acc()
+        for chars in itertools.product(STR_ALPHA, repeat=shard[1]):
+            text = "".join(chars)
+            check_tree(acc, ["str", text])
+            check_tree(acc, ["list", [["str", text]]])
+            if all(ord(c) < 256 for c in text):
+                check_tree(acc, ["bytes", text])
+                check_tree(acc, ["bytearray", text])
+        return acc.result()
+    return _run_shard_main(shard, tier)
